@@ -15,14 +15,19 @@ def section(txt, pat):
 
 
 bullets = []
-for f in sorted(x for x in os.listdir(R) if x.endswith(".md")):
+R2 = os.path.join(ROOT, "reports", "ext5b")   # short second wave of the same session
+files = [(R, x) for x in sorted(os.listdir(R)) if x.endswith(".md")]
+if os.path.isdir(R2):
+    files += [(R2, x) for x in sorted(os.listdir(R2)) if x.endswith(".md")]
+for d_, f in files:
     pid = f[:3]
-    txt = open(os.path.join(R, f)).read()
+    txt = open(os.path.join(d_, f)).read()
+    wave = " Second wave (5b)." if d_ == R2 else ""
     d = section(txt, r"(paragraph|text) for DESIGN")
     c = section(txt, r"sentences?(?:\(s\))? for .*claim")
     if d:
         d = re.sub(r"^\*\*?C\d\d[^*]*\*\*\.?\s*", "", d).strip().strip('"')
-        bullets.append(f"* **{pid}** ({len(th[pid]['theorems'])} theorems). {d}")
+        bullets.append(f"* **{pid}** ({len(th[pid]['theorems'])} theorems).{wave} {d}")
     if c:
         c = c.strip().strip('"').strip()
         c = re.sub(r"^(Append|Add)[^:]*:\s*", "", c)
